@@ -28,7 +28,7 @@ use serde_json::{Value, json};
 
 use super::{
     model::Topo,
-    world::{self, RealSeg, World, hop_mac, is_cd, is_peer, path_class, pfx, simulate},
+    world::{self, RealSeg, World, hop_mac, is_cd, is_peer, path_class, pfx},
 };
 
 const TS: u32 = 1_700_000_000;
@@ -102,6 +102,7 @@ struct Rec<'a> {
     injects: u64,
     nontrivial: u64,
     by_fam: HashMap<String, u64>,
+    by_cls: HashMap<String, u64>,
     by_verdict: HashMap<String, u64>,
 }
 
@@ -111,30 +112,31 @@ impl Rec<'_> {
         self.out.write(&v);
     }
 
-    /// inject `model` at (at, ifin) and record every AS step of the real simulator
-    fn inject(&mut self, w: &mut World, fam: &str, cls: &str, model: &StandardPath, src: u32, dst: u32, at: u32, ifin: u16, now: u32, down: &[usize]) -> Option<Box<ScionRawPacketView>> {
+    /// inject `model` at (at, ifin) and record every AS step of the real simulator; `sched[n]` = links that are
+    /// down when the (n+1)-th AS step is taken (the last entry stays in force): a `links` event is logged whenever
+    /// the link state changes while the packet travels
+    fn inject(&mut self, w: &mut World, fam: &str, cls: &str, model: &StandardPath, src: u32, dst: u32, at: u32, ifin: u16, now: u32, sched: &[Vec<usize>]) -> Option<Box<ScionRawPacketView>> {
         let Ok(dp) = world::encode_path(model) else { return None };
-        let Ok(orig) = world::packet(w.ia[src as usize], w.ia[dst as usize], dp) else { return None };
-        w.set_links(down);
+        let Ok(mut pk) = world::packet(w.ia[src as usize], w.ia[dst as usize], dp) else { return None };
+        let down_at = |n: usize| -> Vec<usize> { if sched.is_empty() { vec![] } else { sched[n.min(sched.len() - 1)].clone() } };
         self.injects += 1;
         *self.by_fam.entry(fam.to_string()).or_insert(0) += 1;
+        *self.by_cls.entry(cls.to_string()).or_insert(0) += 1;
         if fam != "honest" || cls != "plain" {
             self.nontrivial += 1;
         }
-        self.ev(json!({"ev": "inject", "fam": fam, "cls": cls, "pkt": pkt_json(model, src, dst), "at": at, "ifin": ifin, "now": now, "down": down}));
+        self.ev(json!({"ev": "inject", "fam": fam, "cls": cls, "pkt": pkt_json(model, src, dst), "at": at, "ifin": ifin, "now": now, "down": down_at(0)}));
         let bound = model.hop_field_count() + 2;
-        let mut before: Box<ScionRawPacketView> = orig.to_boxed();
-        let mut last_pkt = orig.to_boxed();
+        let (mut cur_as, mut cur_if) = (at, ifin);
         let mut last_k = String::new();
-        for n in 1..=bound {
-            // state before step n = packet after n-1 steps
-            let mut pk = orig.to_boxed();
-            let o = simulate(w, &mut pk, now, at, ifin, n);
-            if o.steps.len() < n {
-                break;
+        for n in 0..bound {
+            let down = down_at(n);
+            if n > 0 && down != down_at(n - 1) {
+                self.ev(json!({"ev": "links", "down": down}));
             }
-            let s = &o.steps[n - 1];
-            let pre = world::std_path_of(&before);
+            let pre = world::std_path_of(&pk);
+            let o = world::simulate_sched(w, &mut pk, now, cur_as, cur_if, std::slice::from_ref(&down), 1);
+            let Some(s) = o.steps.first() else { break };
             let (mut f0, mut f1) = (json!([]), json!([]));
             if let Some(pm) = &pre {
                 let g = pm.current_hop_field as usize;
@@ -148,15 +150,15 @@ impl Rec<'_> {
             self.ev(json!({"ev": "step", "as": s.asn, "ifin": s.ifin, "facts": [f0, f1], "k": s.k, "class": if s.k == "error" { "" } else { &s.class },
                            "eg": s.egress, "nas": nas, "nif": nif, "ci1": ci1, "ch1": ch1, "segids1": sids}));
             last_k = s.k.clone();
-            before = pk.to_boxed();
-            last_pkt = pk;
-            if s.k != "fwd" {
+            if s.k != "fwd" || nas == 0 {
                 break;
             }
+            cur_as = nas;
+            cur_if = nif;
         }
         *self.by_verdict.entry(last_k.clone()).or_insert(0) += 1;
         w.set_links(&[]);
-        if last_k == "deliver" { Some(last_pkt) } else { None }
+        if last_k == "deliver" { Some(pk) } else { None }
     }
 }
 
@@ -172,7 +174,7 @@ pub fn run(topos: &str, events: &str, results: &str) {
     let paths_per_pair: usize = std::env::var("SN_PATHS").ok().and_then(|s| s.parse().ok()).unwrap_or(4);
     // none: segments and offered sets only; honest: + honest packets and their reverse; all: + attacker mutations
     let inject_mode = std::env::var("SN_INJECT").unwrap_or_else(|_| "all".into());
-    let mut rec = Rec { out: &mut out, events: 0, steps: 0, injects: 0, nontrivial: 0, by_fam: HashMap::new(), by_verdict: HashMap::new() };
+    let mut rec = Rec { out: &mut out, events: 0, steps: 0, injects: 0, nontrivial: 0, by_fam: HashMap::new(), by_cls: HashMap::new(), by_verdict: HashMap::new() };
     rec.ev(json!({"ev": "meta", "spec": "ScionNet", "seed": seed}));
     let mut ntopo = 0u64;
     let mut npairs = 0u64;
@@ -301,11 +303,11 @@ pub fn run(topos: &str, events: &str, results: &str) {
                 }
                 // seeded attacker mutations
                 let nh = m.hop_field_count();
-                let mutation = rng.below(7);
+                let mutation = rng.below(8);
                 let mut mm = m.clone();
                 let mut at = src;
                 let mut ifin = 0u16;
-                let mut down: Vec<usize> = vec![];
+                let mut sched: Vec<Vec<usize>> = vec![];
                 let mut nowm = now;
                 let fam = match mutation {
                     0 => {
@@ -348,7 +350,7 @@ pub fn run(topos: &str, events: &str, results: &str) {
                             if !ifs.is_empty() {
                                 let c = ifs[(rng.below((ifs.len() / 2) as u64) * 2) as usize];
                                 if let Some((l, _, _)) = w.ifmap.get(&c) {
-                                    down.push(l + 1);
+                                    sched = vec![vec![l + 1]];
                                 }
                             }
                         }
@@ -366,22 +368,38 @@ pub fn run(topos: &str, events: &str, results: &str) {
                         nowm = offs[i].exp_fn.unwrap_or(now) + 1 + rng.below(3) as u32;
                         "mut-expired"
                     }
+                    7 => {
+                        // a link of the path fails (or recovers) while the packet travels
+                        if let Ok(ifs) = world::decode_ifs(&w, src, &m) {
+                            if !ifs.is_empty() {
+                                let nl = ifs.len() / 2;
+                                let c = ifs[(rng.below(nl as u64) * 2) as usize];
+                                if let Some((l, _, _)) = w.ifmap.get(&c) {
+                                    let k = 1 + rng.below(nl as u64) as usize;
+                                    let fails = rng.chance(1, 2);
+                                    sched = (0..=nl).map(|n| if (n >= k) == fails { vec![l + 1] } else { vec![] }).collect();
+                                }
+                            }
+                        }
+                        "mut-toggle"
+                    }
                     _ => {
                         let k = rng.below(mm.segments.len() as u64) as usize;
                         mm.segments[k].info_field.timestamp = mm.segments[k].info_field.timestamp.wrapping_sub(1 + rng.below(5) as u32);
                         "mut-ts"
                     }
                 };
-                rec.inject(&mut w, fam, cls, &mm, src, dst, at, ifin, nowm, &down);
+                rec.inject(&mut w, fam, cls, &mm, src, dst, at, ifin, nowm, &sched);
             }
         }
     }
     let (events, steps, injects, nontrivial) = (rec.events, rec.steps, rec.injects, rec.nontrivial);
     let by_fam = rec.by_fam.clone();
+    let by_cls = rec.by_cls.clone();
     let by_verdict = rec.by_verdict.clone();
     drop(rec);
     out.finish();
     let res = json!({"topologies": ntopo, "pairs": npairs, "offered": noffered, "events": events, "steps": steps, "injects": injects,
-                     "nontrivial": nontrivial, "by_fam": by_fam, "by_verdict": by_verdict, "tool_errors": tool_errors});
+                     "nontrivial": nontrivial, "by_fam": by_fam, "by_cls": by_cls, "by_verdict": by_verdict, "tool_errors": tool_errors});
     std::fs::write(results, serde_json::to_string_pretty(&res).unwrap()).expect("write results");
 }
